@@ -24,7 +24,9 @@ RULE = ('Hypothesis-generated (stream, split into reads, TIMEOUT markers, call h
         'real fdspawn over a pipe with maxread=k.  Non-trivial: >=2 calls and one of {a read boundary '
         'strictly inside a matched occurrence, a TIMEOUT between two matches, window differs between '
         'consecutive calls, zero-width or end-of-text match with text pending, buffer assignment followed '
-        'by a match}.  Distinct by hash of the whole case.')
+        'by a match}; plus a fault tier: the k-th read of an expect/expect_exact/expect_list/readline/read(n) call raises an injected '
+        'exception (OSError, RuntimeError, an application exception; one or two faults), the rest is drained by read()/expect(EOF)/readlines() '
+        'and everything handed back must be the stream, once (non-trivial there: a fault after text had arrived).  Distinct by hash of the whole case.')
 ASSUMPTIONS = [
     'read boundaries are those of the scripted transport (every chunk goes through the real incremental '
     'decoder and _log); the real-descriptor replay covers fdspawn on a pre-filled pipe only',
